@@ -114,7 +114,7 @@ ADDED = {
     "C02": "Also: thousands of five-byte lines in one read behind a 40 KB value, responses whose tail repeats an earlier response byte for byte, responses that consist of one bare binary part, and every segmentation once more with the session driven through command() instead of receive().",
     "C03": "Also: responses that consist of one bare binary part (no field in front of it), list errors whose command index differs from the number of frames.",
     "C04": "Also: a subsystem name outside ASCII split at every byte (inside a character too); fault kinds as C08; the independence probe of C01.",
-    "C05": "Also: the session after a password handshake, a typed list of 180 000 commands (2.3 MB) as one request; the independence probe of C01.",
+    "C05": "Also: the session after a password handshake, a typed list of 180 000 commands (2.3 MB) as one request, request lines of 4200 / 5000 bytes issued while idling and in the window after a reply; the independence probe of C01.",
     "C06": "Also: one argument per Unicode scalar value in U+0080..U+33FF, U+FF00..U+FFFF, U+1F000..U+1F6FF; arguments of every length 1..40/130 with one separator / quote / non-ASCII character at every position; pairs of equally long arguments through one reused buffer; transports that are busy (Pending) between partial writes.",
     "C07": "Also: values of 31..5000 (thorough 2^20) bytes with LF / NUL at six positions (rollback of long rejected arguments); names and arguments handed over in one reused buffer (every same-length pair of a pool): the verdict on each is the verdict it gets on its own; a send that failed leaves nothing behind for a later send on another connection of the thread; whole lines over short-writing asynchronous transports.",
     "C08": "Fault kinds since rounds 6/7: ReadErrAfter(p) (p more bytes stay readable, then reads fail), HugeBinary (a binary header announcing 2^64-1 bytes, then the end); scenarios: the greeting still in flight when the fault strikes (executions in which the handshake itself fails are left to C18), a three-chunk album-art load under faults, cancellation x write errors. Clauses added: a reply the client has read to its last byte is delivered to its caller; an interrupted picture load yields the picture or an error, never 'no picture'. The independence probe of C01.",
@@ -122,11 +122,11 @@ ADDED = {
     "C10": "Also: bare binary responses cut every 997 bytes; at every cut position a transport error (connection reset) instead of the end of the stream - never a clean close, the responses in front of it are delivered.",
     "C11": "Also: on a single leaf every value under every operator and through Filter::tag; values of every length 40..70, 120..136, 250..260 and around 512/1024/2000 with backslashes / quotes / blanks / non-ASCII characters; values with LF / NUL (refused, or sent unaltered - never a request without the filter); every builder path that carries a filter (find with sort / window, count, count.group_by, list.filter / group_by in both orders).",
     "C12": "Also: values of 9..4100 bytes (ASCII, digits, multi-byte characters straddling every likely clip length) as single field and as an edit of the valid base reply; field names of 20..5000 characters.",
-    "C13": "Also: a Race is not offered for an empty list; extend() with iterators of inexact size_hint; a list whose write failed leaves nothing behind for a later list; a typed list of 180 000 commands is one block; thorough: every shape with a notification and a split, bounds 4-5.",
+    "C13": "Also: tuple lists answered with surplus frames (an error, or the i-th result from the i-th frame); a Race is not offered for an empty list; extend() with iterators of inexact size_hint; a list whose write failed leaves nothing behind for a later list; a typed list of 180 000 commands is one block; thorough: every shape with a notification and a split, bounds 4-5.",
     "C14": "Also: every listing decoded through 12 builder paths (find plain / windowed / sorted, playlistinfo range / position / id, listallinfo root / directory, ...): decoding does not depend on the request's parameters; songs of 20..300 tag lines; replies with a repeated attribute line decode alike through every entry point; 11 RFC 3339 spellings of Last-Modified returned verbatim; the whole enumeration also in the chrono build.",
     "C15": "Also: 12 strings per string parameter (a quote or backslash before the first blank, trailing blank); every order of List's builder steps and each step twice; a panicking constructor is reported (C15/panic), not a crash.",
     "C16": "Also: every sticker name of length <=3 over 6 classes (2-, 3-, 4-byte characters) x every value of length <=2 over 4 classes through get / list / find; every grouped list reply of <=5 lines over 2 tags x 3 texts incl. identical neighbours; 11 RFC 3339 spellings of Last-Modified; the whole enumeration also in the chrono build.",
-    "C17": "Also: binary limits raised to 64 KiB..2 MiB (chunks far beyond the receive buffer), greetings of nine other server versions, nine unusual MIME spellings returned verbatim; thorough exploration bound 5.",
+    "C17": "Also: binary limits raised to 64 KiB..2 MiB (chunks far beyond the receive buffer), pictures of 4 MiB + 10 (thorough: 16 MiB + 3) bytes, greetings of nine other server versions, nine unusual MIME spellings returned verbatim; thorough exploration bound 5.",
     "C19": "Also: frames of 21..100 fields (operation sequences <=2 and directed runs, a fixed family of 32 walk patterns); list errors whose index differs from the number of frames; a panic in an observer is reported (C19/panic).",
     "C20": "Also: Tag == &str against every name of the domain; known names with tails of up to 20 letters and plain names of 20..70 / 300 letters as parse candidates.",
 }
